@@ -33,17 +33,33 @@ Fixpoint count_of (names : list (str * Z)) (n : str) : option Z :=
   | [] => None
   | (m, k) :: r => if str_eqb m n then Some k else count_of r n
   end.
-Fixpoint bump (names : list (str * Z)) (n : str) : list (str * Z) :=
+Fixpoint set_count (names : list (str * Z)) (n : str) (k : Z) : list (str * Z) :=
   match names with
   | [] => []
-  | (m, k) :: r => if str_eqb m n then (m, k + 1) :: r else (m, k) :: bump r n
+  | (m, j) :: r => if str_eqb m n then (m, k) :: r else (m, j) :: set_count r n k
   end.
 
-(* the name a member is written under: py7zr.py 578-583 *)
+(* while outname in fnames: outname = filename + "_%d" % fnames[filename]; fnames[filename] += 1
+   -- the keys do not change during the loop, so it ends within (number of keys + 1) rounds *)
+Fixpoint rename_go (fuel : nat) (names : list (str * Z)) (n : str) (k : Z) : str * Z :=
+  let cand := n ++ [95] ++ dec k in
+  match fuel with
+  | O => (cand, k + 1)
+  | S fuel' =>
+    match count_of names cand with
+    | None => (cand, k + 1)
+    | Some _ => rename_go fuel' names n (k + 1)
+    end
+  end.
+
+(* the name a member is written under, and the dictionary afterwards: py7zr.py, "outname = f.filename;
+   while outname in fnames: ...; fnames[outname] = 0" *)
 Definition outname (names : list (str * Z)) (n : str) : str * list (str * Z) :=
   match count_of names n with
   | None => (n, (n, 0) :: names)
-  | Some k => (n ++ [95] ++ dec k, bump names n)
+  | Some k =>
+    let '(o, k') := rename_go (length names) names n k in
+    (o, (o, 0) :: set_count names n k')
   end.
 
 Section Extract.
